@@ -284,7 +284,13 @@ def _file_may_match(
 
             elif expr.op == FilterOp.NE:
                 # For inequality: can only prune if entire file has same value
-                if file_min == file_max == expr.value:
+                # Float bounds say nothing about NaN rows (min/max skip them)
+                # and NaN != v is TRUE, so a float column can never be pruned.
+                if (
+                    not isinstance(file_min, float)
+                    and not isinstance(file_max, float)
+                    and file_min == file_max == expr.value
+                ):
                     return False
 
             elif expr.op == FilterOp.GT:
